@@ -53,19 +53,25 @@ InBounds(ks, v, m) == \A i \in DOMAIN v : ks[i] = "hard" => (0 <= v[i] /\ v[i] <
 Fd == INSTANCE Fold WITH Ms <- {1}, Span <- 1, Dims <- {1}, MaxRows <- 1, Span2 <- 1,
                          pc <- "in", M <- 1, kinds <- <<"hard">>, rows <- <<>>, out <- <<>>, ok <- <<>>
 
-CONSTANTS Cases,     \* sequence of << M, d, alpha, tabs, steptabs, bs, maxdraws >> :
+CONSTANTS Cases,     \* sequence of << M, d, alpha, tabs, steptabs, bs, maxdraws, gains, nsweeps >> :
                      \*   alpha    = << <<z, w>>, ... >> signed increment z (cells) with integer weight w
                      \*   tabs     = set of tables e (sequences of length M^d); {} means EVERY table over Levels
                      \*   steptabs = the tables for which the sweep actions are enabled (transitions enumerated)
                      \*   bs       = set of b, beta = b/2
                      \*   maxdraws = bound on the number of increments drawn in one proposal (redraw loop unrolled)
+                     \*   gains    = << g_1, ..., g_K >> : proposal mode (cluster label) c moves g_c cells per unit of
+                     \*              innovation (sigma_c * chol_c = g_c / M); the walker's label selects the mode
+                     \*   nsweeps  = number of consecutive sweeps of ONE run() call that are enumerated
           Levels,    \* values of the table e (even integers >= 0)
           Rule,      \* "intended" | "impl"
           HardMode   \* "any" | "none" (no hard coordinate) | "some" (at least one hard coordinate)
 
-VARIABLES pc, ci, M, kinds, e, b, pis, mat, u, zs, prop, fol, ok, rc, acc, rec
+VARIABLES pc, ci, M, kinds, e, b, pis, mat, u, zs, prop, fol, ok, rc, acc, rec,
+          lab,    \* the walker's cluster label (index into gains): FIXED for the whole run() call
+          sw,     \* number of the current sweep, 1..nsweeps
+          hist    \* the completed sweeps of this run() call: << <<u, zs, rc, fol, ok, acc, rec>>, ... >>
 
-vars == <<pc, ci, M, kinds, e, b, pis, mat, u, zs, prop, fol, ok, rc, acc, rec>>
+vars == <<pc, ci, M, kinds, e, b, pis, mat, u, zs, prop, fol, ok, rc, acc, rec, lab, sw, hist>>
 
 Kinds == {"hard", "periodic", "reflective"}
 
@@ -116,15 +122,20 @@ Q1(kind, al, c, cw, m) ==
     SumF(LAMBDA i : IF Inside(<<kind>>, <<c>>, <<al[i][1]>>, m) /\ Land(<<kind>>, <<c>>, <<al[i][1]>>, m) = <<cw>>
                     THEN al[i][2] ELSE 0, Len(al))
 
-\* constant-level tables (TLC evaluates them once): per case, kind, cell, target cell
-QTab   == [k \in DOMAIN Cases |-> [kind \in Kinds |-> [c \in Cells(Cases[k][1]) |-> [cw \in Cells(Cases[k][1]) |->
-              Q1(kind, Cases[k][3], c, cw, Cases[k][1])]]]]
-WInTab == [k \in DOMAIN Cases |-> [kind \in Kinds |-> [c \in Cells(Cases[k][1]) |-> W1In(kind, Cases[k][3], c, Cases[k][1])]]]
+\* the increments (in cells) that mode l of case k makes: g_l times the innovation, same weights
+AlphaOf(k, l) == [i \in DOMAIN Cases[k][3] |-> <<Cases[k][8][l] * Cases[k][3][i][1], Cases[k][3][i][2]>>]
+
+\* constant-level tables (TLC evaluates them once): per case, mode, kind, cell, target cell.
+\* Below, the argument k of WTot / WIn / QNum / Norm / PDen / PNum / MatOf is the pair << case, mode >>.
+QTab   == [k \in DOMAIN Cases |-> [l \in DOMAIN Cases[k][8] |-> [kind \in Kinds |-> [c \in Cells(Cases[k][1]) |-> [cw \in Cells(Cases[k][1]) |->
+              Q1(kind, AlphaOf(k, l), c, cw, Cases[k][1])]]]]]
+WInTab == [k \in DOMAIN Cases |-> [l \in DOMAIN Cases[k][8] |-> [kind \in Kinds |-> [c \in Cells(Cases[k][1]) |->
+              W1In(kind, AlphaOf(k, l), c, Cases[k][1])]]]]
 WTotTab == [k \in DOMAIN Cases |-> W1Tot(Cases[k][3])]
 
-WTot(k, d) == ProdF(LAMBDA j : WTotTab[k], d)
-WIn(k, ks, v) == ProdF(LAMBDA j : WInTab[k][ks[j]][v[j]], Len(v))
-QNum(k, ks, v, w) == ProdF(LAMBDA j : QTab[k][ks[j]][v[j]][w[j]], Len(v))
+WTot(k, d) == ProdF(LAMBDA j : WTotTab[k[1]], d)
+WIn(k, ks, v) == ProdF(LAMBDA j : WInTab[k[1]][k[2]][ks[j]][v[j]], Len(v))
+QNum(k, ks, v, w) == ProdF(LAMBDA j : QTab[k[1]][k[2]][ks[j]][v[j]][w[j]], Len(v))
 
 \* the same weight by brute-force enumeration of increment vectors (the definition; see Factorised)
 QNumDef(ks, al, v, w, m) ==
@@ -177,6 +188,9 @@ HardOK(ks) == CASE HardMode = "any"  -> TRUE
                 [] HardMode = "some" -> \E i \in DOMAIN ks : ks[i] = "hard"
 
 Alpha == Cases[ci][3]
+Gain == Cases[ci][8][lab]
+KL == <<ci, lab>>
+Scaled(z) == [i \in DOMAIN z |-> Gain * z[i]]      \* sigma_c * chol_c @ z  for the walker's mode c = lab
 Tabs(k) == IF Cases[k][4] = {} THEN [1..Pow(Cases[k][1], Cases[k][2]) -> Levels] ELSE Cases[k][4]
 
 Init ==
@@ -187,6 +201,8 @@ Init ==
     /\ HardOK(kinds)
     /\ e \in Tabs(ci)
     /\ b \in Cases[ci][6]
+    /\ lab \in DOMAIN Cases[ci][8]
+    /\ sw = 1 /\ hist = <<>>
     /\ pis = <<>> /\ mat = <<>> /\ u = <<>>
     /\ zs = <<>> /\ prop = <<>> /\ fol = <<>> /\ ok = FALSE /\ rc = "none" /\ acc = FALSE /\ rec = <<>>
 
@@ -194,9 +210,9 @@ Init ==
 Weights ==
     /\ pc = "init"
     /\ pis' = [i \in 1..Len(e) |-> PiOf(e, b, i)]
-    /\ mat' = MatOf(Rule, ci, kinds, pis', M)
+    /\ mat' = MatOf(Rule, KL, kinds, pis', M)
     /\ pc' = "weights"
-    /\ UNCHANGED <<ci, M, kinds, e, b, u, zs, prop, fol, ok, rc, acc, rec>>
+    /\ UNCHANGED <<ci, M, kinds, e, b, u, zs, prop, fol, ok, rc, acc, rec, lab, sw, hist>>
 
 \* the walker's current state (a particle of the batch handed to the runner)
 Walker ==
@@ -204,30 +220,30 @@ Walker ==
     /\ u' \in Cube(M, D)
     /\ mat' = <<>>
     /\ pc' = "start"
-    /\ UNCHANGED <<ci, M, kinds, e, b, pis, zs, prop, fol, ok, rc, acc, rec>>
+    /\ UNCHANGED <<ci, M, kinds, e, b, pis, zs, prop, fol, ok, rc, acc, rec, lab, sw, hist>>
 
 \* proposal = u + sigma * chol @ randn  (first draw)
 Propose ==
     /\ pc = "start"
     /\ \E z \in Incs(Alpha, D) :
          /\ zs' = <<z>>
-         /\ prop' = Raw(u, z)
+         /\ prop' = Raw(u, Scaled(z))
     /\ pc' = "proposed"
-    /\ UNCHANGED <<ci, M, kinds, e, b, pis, mat, u, fol, ok, rc, acc, rec>>
+    /\ UNCHANGED <<ci, M, kinds, e, b, pis, mat, u, fol, ok, rc, acc, rec, lab, sw, hist>>
 
 \* apply_boundary_conditions
 Fold ==
     /\ pc = "proposed"
     /\ fol' = FoldVec(kinds, prop, 2 * M)
     /\ pc' = "folded"
-    /\ UNCHANGED <<ci, M, kinds, e, b, pis, mat, u, zs, prop, ok, rc, acc, rec>>
+    /\ UNCHANGED <<ci, M, kinds, e, b, pis, mat, u, zs, prop, ok, rc, acc, rec, lab, sw, hist>>
 
 \* check_bounds
 Check ==
     /\ pc = "folded"
     /\ ok' = InBounds(kinds, fol, 2 * M)
     /\ pc' = "checked"
-    /\ UNCHANGED <<ci, M, kinds, e, b, pis, mat, u, zs, prop, fol, rc, acc, rec>>
+    /\ UNCHANGED <<ci, M, kinds, e, b, pis, mat, u, zs, prop, fol, rc, acc, rec, lab, sw, hist>>
 
 \* code-shaped hard-wall rule: `while True:` draws a FRESH increment from the CURRENT state
 Impl_RedrawUntilInside ==
@@ -235,9 +251,9 @@ Impl_RedrawUntilInside ==
     /\ Len(zs) < Cases[ci][7]
     /\ \E z \in Incs(Alpha, D) :
          /\ zs' = Append(zs, z)
-         /\ prop' = Raw(u, z)
+         /\ prop' = Raw(u, Scaled(z))
     /\ pc' = "proposed"
-    /\ UNCHANGED <<ci, M, kinds, e, b, pis, mat, u, fol, ok, rc, acc, rec>>
+    /\ UNCHANGED <<ci, M, kinds, e, b, pis, mat, u, fol, ok, rc, acc, rec, lab, sw, hist>>
 
 RecordOf(v) == <<v, E(e, v, M), Idx(v, M)>>     \* (u = x, logl table value, blob tag) move together
 PiAt(v) == pis[Idx(v, M)]
@@ -249,7 +265,7 @@ OutReject ==
     /\ acc' = FALSE
     /\ rec' = RecordOf(u)
     /\ pc' = "done"
-    /\ UNCHANGED <<ci, M, kinds, e, b, pis, mat, u, zs, prop, fol, ok>>
+    /\ UNCHANGED <<ci, M, kinds, e, b, pis, mat, u, zs, prop, fol, ok, lab, sw, hist>>
 
 \* alpha = min(1, exp(beta*(logl' - logl)));  mask = r < alpha
 Accepts(r, v) ==
@@ -263,7 +279,7 @@ Accept ==
     /\ acc' = TRUE
     /\ rec' = RecordOf(fol)
     /\ pc' = "done"
-    /\ UNCHANGED <<ci, M, kinds, e, b, pis, mat, u, zs, prop, fol, ok>>
+    /\ UNCHANGED <<ci, M, kinds, e, b, pis, mat, u, zs, prop, fol, ok, lab, sw, hist>>
 
 Reject ==
     /\ pc = "checked" /\ ok
@@ -272,9 +288,20 @@ Reject ==
     /\ acc' = FALSE
     /\ rec' = RecordOf(u)
     /\ pc' = "done"
-    /\ UNCHANGED <<ci, M, kinds, e, b, pis, mat, u, zs, prop, fol, ok>>
+    /\ UNCHANGED <<ci, M, kinds, e, b, pis, mat, u, zs, prop, fol, ok, lab, sw, hist>>
 
-Next == Weights \/ Walker \/ Propose \/ Fold \/ Check \/ Impl_RedrawUntilInside \/ OutReject \/ Accept \/ Reject
+\* `while True:` of run(): the next sweep starts from the record the last one left; the label is NOT touched
+\* (assignments are an input of run() and are never written by it)
+NextSweep ==
+    /\ pc = "done" /\ sw < Cases[ci][9]
+    /\ hist' = Append(hist, <<u, zs, rc, fol, ok, acc, rec>>)
+    /\ u' = rec[1]
+    /\ sw' = sw + 1
+    /\ zs' = <<>> /\ prop' = <<>> /\ fol' = <<>> /\ ok' = FALSE /\ rc' = "none" /\ acc' = FALSE /\ rec' = <<>>
+    /\ pc' = "start"
+    /\ UNCHANGED <<ci, M, kinds, e, b, pis, mat, lab>>
+
+Next == Weights \/ Walker \/ Propose \/ Fold \/ Check \/ Impl_RedrawUntilInside \/ OutReject \/ Accept \/ Reject \/ NextSweep
 
 Spec == Init /\ [][Next]_vars
 
@@ -310,7 +337,7 @@ NeverLeaves ==
 
 \* every move the sweep can make has positive weight in P
 StepInSupport ==
-    (pc = "done" /\ rec[1] # u) => PNum(Rule, ci, kinds, pis, u, rec[1], M) > 0
+    (pc = "done" /\ rec[1] # u) => PNum(Rule, KL, kinds, pis, u, rec[1], M) > 0
 
 \* the whole record moves: stored log-likelihood and blob are those of the stored point
 RecordCoherent ==
@@ -323,9 +350,15 @@ DrawCount ==
     /\ Rule = "intended" => Len(zs) <= 1
     /\ (pc = "done" /\ Rule = "impl") => ok
 
+\* every proposal of every sweep is made with the mode of the walker's label, and the label never changes
+ProposalUsesLabel ==
+    pc \in {"proposed", "folded", "checked", "done"} => prop = Raw(u, Scaled(zs[Len(zs)]))
+LabelFixed == [][lab' = lab]_vars
+SweepCount == sw = Len(hist) + 1 /\ sw <= Cases[ci][9]
+
 \* the product form of the proposal weights is the brute-force sum over increment vectors
 Factorised ==
-    (pc = "weights" /\ b = (CHOOSE x \in Cases[ci][6] : TRUE) /\ e = (CHOOSE t \in Tabs(ci) : TRUE)) => \A v, w \in Cube(M, D) : QNum(ci, kinds, v, w) = QNumDef(kinds, Alpha, v, w, M)
+    (pc = "weights" /\ b = (CHOOSE x \in Cases[ci][6] : TRUE) /\ e = (CHOOSE t \in Tabs(ci) : TRUE)) => \A v, w \in Cube(M, D) : QNum(KL, kinds, v, w) = QNumDef(kinds, AlphaOf(ci, lab), v, w, M)
 
 \* the copied boundary operators are Fold.tla's
 FoldOpsAgree ==
